@@ -9,18 +9,19 @@ from harness.core import Result
 from harness import xsdgen, xmlcanon, enginea
 from harness.props import c03
 
-LEAN_MODULES = ["ZeepProofs.C07", "ZeepProofs.C07Deep"]
+LEAN_MODULES = ["ZeepProofs.C07", "ZeepProofs.C07Deep", "ZeepProofs.C07Lax"]
 NS = "Zeep.Xsd."
 THEOREMS = [NS + t for t in ("c07_strict_no_raw", "c07_strict_rejects_leftover", "c07_lax_keeps_leftover", "elemLoop_takes_own_name",
                              "seqRound_flat_keeps_strangers", "parseP_flat_seq_keeps_strangers", "c07_stranger_flat", "c07_leak_counterexample",
                              "acct", "acct_parseP_all", "c07_strict_rejects_stranger_any_depth", "c07_strict_rejects_undeclared_child",
-                             "c07_lax_keeps_stranger", "c07_header_entries_kept", "c07_all_surplus_kept")]
+                             "c07_lax_keeps_stranger", "c07_header_entries_kept", "c07_all_surplus_kept",
+                             "accti", "accti_top", "c07_lax_keeps_stranger_any_depth")]
 LEVEL = "proof"
 MANIFEST = dict(
     engine="A: lean/ZeepModel/Xsd/Parse.lean",
-    technique="Lean 4 theorems about the model of zeep's deque decoder: an accounting invariant proved by mutual induction over every decoder function (what a content model removes from the deque is a prefix whose every node was decoded by a declaration carrying its local name; xsd:all hands back what its members leave), from which: strict mode rejects a stranger at any depth and any position under any wildcard-free nesting of sequence / choice / group (xsd:all at the top) with any occurrence bounds; non-strict mode keeps it among the parent's raw elements; unknown SOAP header entries (consume_other) are always kept; + exhaustive insertion tie on valid documents (undeclared elements and surplus occurrences of declared ones) and on SOAP headers",
+    technique="Lean 4 theorems about the model of zeep's deque decoder: an accounting invariant proved by mutual induction over every decoder function (what a content model removes from the deque is a prefix whose every node was decoded by a declaration carrying its local name; xsd:all hands back what its members leave), from which: strict mode rejects a stranger at any depth and any position under any wildcard-free nesting of sequence / choice / group (xsd:all at the top) with any occurrence bounds; non-strict mode keeps it as raw XML reachable from the returned value at any depth (accounting refined with places: every consumed node is decoded into an item of the returned instance; c07_lax_keeps_stranger_any_depth); unknown SOAP header entries (consume_other) are always kept; + exhaustive insertion tie on valid documents (undeclared elements and surplus occurrences of declared ones) and on SOAP headers",
     text="acct (mutual induction over parseP / seqLoop / seqRound / choiceLoop / choiceOptions / groupLoop, every gas, both modes) and acct_parseP_all give c07_strict_rejects_stranger_any_depth (HasStranger: a child no declaration of the enclosing content model can account for, at any depth, any position, content models of any nesting of sequence / choice / group with any bounds, xsd:all at the top), c07_lax_keeps_stranger (the stranger is among the raw elements of its parent), c07_header_entries_kept (consume_other: kept raw in both modes) and c07_all_surplus_kept (fix F31); c07_strict_rejects_leftover / c07_lax_keeps_leftover hold for every content particle incl. wildcards. Tied by inserting an undeclared element at every position (before first, between any two, after last child of every complex element, every depth) of libxml2-valid documents, both modes, comparing outcome class / raw placement with the model and checking directly that the stranger never vanishes; unknown SOAP header entries at every position are checked to stay as raw elements.",
-    note="Outside the theorems by construction of HasStranger: wildcards (xsd:any accepts strangers by definition), xsi:nil / xsi:type (not in the Lean model; tied only), non-strict mode below the stranger's parent. Known finding K1: children of an element whose type has no element content (empty complexType, simpleContent, simple type) vanish in both modes (counterexample theorem proved, leak sites mirrored in the model).",
+    note="Outside the theorems by construction of HasStranger: wildcards (xsd:any accepts strangers by definition), xsi:nil / xsi:type (not in the Lean model; tied only). Known finding K1: children of an element whose type has no element content (empty complexType, simpleContent, simple type) vanish in both modes (counterexample theorem proved, leak sites mirrored in the model).",
     design_ref="DESIGN.md section 6, C07",
 )
 TRUSTED = c03.TRUSTED
